@@ -70,6 +70,10 @@ type CtrSpec struct {
 	MemReq int64  `json:"memreq"`          // in MemUnit (Burstable: drives oom_score_adj)
 	NoMem  bool   `json:"nomem,omitempty"` // leave Linux.Resources.Memory nil
 	NoRes  bool   `json:"nores,omitempty"` // leave Linux.Resources nil
+	// optional sub-messages of LinuxCPU left out (well-formed NRI: Shares, Quota and Period are optional wrappers)
+	NoPeriod bool `json:"noperiod,omitempty"` // quota (if any) without a period
+	NoShares bool `json:"noshares,omitempty"` // no cpu.shares
+	NoCPU    bool `json:"nocpu,omitempty"`    // Linux.Resources.Cpu nil (memory only)
 	Cpus0  string `json:"cpus0,omitempty"` // cpuset.cpus the runtime created the container with
 	Mems0  string `json:"mems0,omitempty"` // cpuset.mems the runtime created the container with
 }
@@ -328,6 +332,15 @@ func linuxResources(s CtrSpec) *api.LinuxResources {
 	if s.CPULim > 0 {
 		q, _ := kubernetes.MilliCPUToQuota(int64(s.CPULim))
 		r.Cpu.Quota = api.Int64(q)
+	}
+	if s.NoPeriod {
+		r.Cpu.Period = nil
+	}
+	if s.NoShares {
+		r.Cpu.Shares = nil
+	}
+	if s.NoCPU {
+		r.Cpu = nil
 	}
 	if !s.NoMem {
 		r.Memory = &api.LinuxMemory{}
